@@ -3,7 +3,7 @@
 # meta.json (checks_run), record what each printed in seeded/<id>/detect.json, undo.  Never commits anything in /repo.
 set -u
 cd /verif
-IDS=${*:-$(ls seeded)}
+IDS=${*:-$(cd seeded && ls -d */ | tr -d /)}
 if ! git -C /repo diff --quiet; then echo "/repo has uncommitted changes; refusing"; exit 2; fi
 for ID in $IDS; do
   D=seeded/$ID
